@@ -93,7 +93,7 @@ Definition sx_result (r : list (option bytes) * outcome) : sx := SxL [sx_sent (f
 Definition one (r : option bytes * outcome) : list (option bytes) * outcome := ([fst r], snd r).
 
 (** input: L [call; seq; pid; L replies]; output: L [L sent; outcome] *)
-Definition run_call (x : sx) : sx :=
+Definition run_call_with (sx_result : list (option bytes) * outcome -> sx) (x : sx) : sx :=
   match x with
   | SxL [call; SxZ seq; SxZ pid; SxL replies] =>
       match opt_all (map get_bytes replies) with
@@ -193,3 +193,18 @@ Definition run_reply (x : sx) : sx :=
   | Some d => match recv_outcome d with Done n => sx_nat n | o => sx_outcome o end
   | None => bad_input
   end.
+
+(** Compact comparison of long byte strings: length and two polynomial fingerprints folded modulo 2^61-1
+    (parsing hundreds of kilobytes of literals is what limits the case count, not evaluating the model).
+    A sample of the cases of every run is compared byte for byte with [run_call]. *)
+Definition fp_mask : N := 2305843009213693951%N.
+Definition fp_step (base acc x : N) : N :=
+  let y := (acc * base + x + 1)%N in (N.land y fp_mask + N.shiftr y 61)%N.
+Definition fp (base : N) (b : bytes) : N := fold_left (fp_step base) b 0%N.
+Definition sx_fp (b : bytes) : sx := SxL [sx_nat (List.length b); sx_N (fp 257 b); sx_N (fp 65599 b)].
+
+Definition sx_result_fp (r : list (option bytes) * outcome) : sx :=
+  SxL [SxL (flat_map (fun o => match o with Some b => [sx_fp b] | None => [] end) (fst r)); sx_outcome (snd r)].
+
+Definition run_call (x : sx) : sx := run_call_with sx_result x.
+Definition run_call_fp (x : sx) : sx := run_call_with sx_result_fp x.
